@@ -81,6 +81,12 @@ class Capture:
             elif name == k + "_step": self.ev.append(quantise(f))
             elif name == k + "_sweep": self.sw.append(quantise(f))
             elif name == k + "_end": self.end = f
+            elif name == "bicgstab":
+                self.krylov_calls += 1
+                if len(self.krylov) < self.KMAX:
+                    q = quantise(f)
+                    self.krylov.append({"alg": "bicgstab", "N": q["N"], "nmax": q["nmax"], "maxit": q["nmax"], "resets": 1,
+                                        "ev": [{"nit": q["nit"], "relres_L": q["relres_L"], "eps_L": q["eps_L"], "converged": True}], "end": {}})
             elif name == "gmres_begin":
                 self.krylov_calls += 1
                 self._kcur = dict(f); self._kcur["ev"] = []
